@@ -12,22 +12,6 @@
 import Qfx.Lemmas.SessC20
 open Qfx Qfx.Sess
 
-/-- normal operation or gap recovery, no TestRequest outstanding -/
-def C20Active (st : SState) : Prop := st = .inSession ∨ ∃ stash cur fin, st = .resend stash cur fin
-/-- a TestRequest is outstanding -/
-def C20Pending (st : SState) : Prop := st = .pendingIn ∨ ∃ stash cur fin, st = .pendingResend stash cur fin
-
-/-- the pending wrapper of a state: same stash, same chunk end, same gap end -/
-def pendingOf : SState → SState
-  | .inSession => .pendingIn
-  | .resend stash cur fin => .pendingResend stash cur fin
-  | st => st
-
-theorem C20Active.loggedOn {st : SState} (h : C20Active st) : st.loggedOn = true := by
-  rcases h with h | ⟨a, b, c, h⟩ <;> rw [h] <;> rfl
-theorem C20Pending.loggedOn {st : SState} (h : C20Pending st) : st.loggedOn = true := by
-  rcases h with h | ⟨a, b, c, h⟩ <;> rw [h] <;> rfl
-
 /-! ### the timer events (`C20_events`) -/
 
 /-- NeedHeartbeat (nothing sent for the heartbeat interval) outside a pending TestRequest: exactly one Heartbeat (no
@@ -80,9 +64,6 @@ theorem C20_no_heartbeat_while_pending_step (s : Sess) (h : C20Pending s.st) :
   rw [step_timeout_eq s _ (connected_sessionTime _ (loggedOn_connected _ hl)) _ (C20_no_heartbeat_while_pending s.clearLog h)
     (loggedOn_connected _ hl)]
   exact ⟨rfl, rfl, rfl⟩
-
-theorem pendingOf_connected (st : SState) (h : C20Active st) : (pendingOf st).connected = true := by
-  rcases h with h | ⟨a, b, c, h⟩ <;> rw [h] <;> rfl
 
 theorem C20_test_request_step (s : Sess) (h : C20Active s.st) :
     (step s (.timeout .peerTimeout)).1.st = pendingOf s.st ∧
@@ -239,3 +220,59 @@ theorem C20_logon_arms (s : Sess) (m : InMsg) :
   split
   · exact ⟨[.onLogon], rfl⟩
   · exact ⟨[.incT, .onLogon], rfl⟩
+
+/-! ### non-vacuity (evaluated by the interpreter at build time) -/
+
+-- idle: Heartbeat; silent peer: TestRequest 112=TEST + re-arm, pending; no Heartbeat while pending; then disconnect
+#guard obsOf (demoUp {}) [.timeout .needHeartbeat, .timeout .peerTimeout, .timeout .needHeartbeat, .timeout .peerTimeout]
+        == [.saved 2 "0" true, .wire { kind := "0", seq := 2, f := [] },
+            .saved 3 "1" true, .wire { kind := "1", seq := 3, f := [(112, "TEST")] }, .armPeer 36000,
+            .onLogout, .closed]
+#guard (runEvs (demoUp {}) [.timeout .peerTimeout]).st.name == "Pending:InSession"
+#guard (runEvs (demoUp {}) [.timeout .peerTimeout, .timeout .peerTimeout]).st.name == "Latent"
+-- recovery keeps its stash and ranges under the pending wrapper
+#guard (match (runEvs (demoUp {}) [.incomingMsg (some (demoIn {} "D" 5)), .timeout .peerTimeout]).st with
+        | .pendingResend st c f => st.map (·.1) == [5] && c == 0 && f == 4 | _ => false)
+-- an inbound message cancels the pending disconnect; an in-sequence TestRequest is echoed with its TestReqID
+#guard obsOf (demoUp {}) [.timeout .peerTimeout, .incomingMsg (some (demoIn {} "1" 2 [(112, "abc")]))]
+        == [.saved 2 "1" true, .wire { kind := "1", seq := 2, f := [(112, "TEST")] }, .armPeer 36000,
+            .fromAdmin "1" "2", .saved 3 "0" true, .wire { kind := "0", seq := 3, f := [(112, "abc")] }, .incT, .armPeer 36000]
+#guard (runEvs (demoUp {}) [.timeout .peerTimeout, .incomingMsg (some (demoIn {} "1" 2 [(112, "abc")]))]).st.name == "InSession"
+-- the hypotheses of the echo theorem hold for that message
+#guard (checkBeginString (demoUp {}) (demoIn {} "1" 2 [(112, "abc")])).isNone && (checkCompID (demoUp {}) (demoIn {} "1" 2 [(112, "abc")])).isNone
+        && (checkSendingTime (demoUp {}) (demoIn {} "1" 2 [(112, "abc")])).isNone && gotIs (getInt (demoIn {} "1" 2 [(112, "abc")]) 34) 2
+        && (validate (demoIn {} "1" 2 [(112, "abc")])).isNone && (callbackVerdict (demoIn {} "1" 2 [(112, "abc")])).isNone
+-- the acceptor adopts the peer's 108 unless overridden
+#guard (demoUp {} "45").hb == 45 && (demoUp { hbOverride := true, hb := 20 } "45").hb == 20
+#guard (step (demoUp {} "45") (.incomingMsg (some (demoIn {} "0" 2)))).2.1 == [.fromAdmin "0" "2", .incT, .armPeer 54000]
+
+/-! `C20_cancel_resend` needs the fixed code (`lookThroughPending`): with the switch off — the code before the `fix:` — a
+    too-high message in `pending(resend)` sends a second ResendRequest and the recovery state would not have -/
+#guard (fixMsgInCore { cfg := { lookThroughPending := false }, st := .pendingResend [] 0 4, store := { sender := 2, target := 3 },
+                       out := true, inboxOpen := true, hb := 30 } (demoIn {} "D" 9)).1.store.sender == 3
+#guard (fixMsgInCore { cfg := { lookThroughPending := false }, st := .resend [] 0 4, store := { sender := 2, target := 3 },
+                       out := true, inboxOpen := true, hb := 30 } (demoIn {} "D" 9)).1.store.sender == 2
+#guard (fixMsgInCore { cfg := {}, st := .pendingResend [] 0 4, store := { sender := 2, target := 3 },
+                       out := true, inboxOpen := true, hb := 30 } (demoIn {} "D" 9)).1.store.sender == 2
+
+/-! remark (D19 of the design notes): `C20_interval` holds for every value of 108, including 0 and negative ones — the
+    acceptor then arms the peer timer with a non-positive duration -/
+#guard (step (demoUp {} "0") (.incomingMsg (some (demoIn {} "0" 2)))).2.1 == [.fromAdmin "0" "2", .incT, .armPeer 0]
+
+/-!
+Clause checklist (properties.jsonl C20 → theorems)
+* while logged on, a TestRequest received in sequence → one Heartbeat with the same TestReqID : C20_testrequest_echo (every logged-on state), _inSession, _recovery, _sent
+* nothing sent for the heartbeat interval → a Heartbeat                                      : C20_heartbeat, C20_heartbeat_step
+* … unless a test request is pending                                                         : C20_no_heartbeat_while_pending, _step
+* nothing received for 1.2 intervals → a TestRequest (timer re-armed to 1.2 × hb, state pending) : C20_test_request, C20_test_request_step
+* nothing for another 1.2 intervals → disconnected, application notified                     : C20_dead_peer, C20_dead_peer_step (onLogout, closed, Latent)
+* any inbound message in between cancels the pending disconnect                              : C20_cancel_not_pending (no handler ever returns a pending state)
+* … without disturbing a gap recovery in progress                                            : C20_cancel_resend, C20_cancel_inSession (equal results), C20_cancel_step (equal events);
+                                                                                               C20_test_request (`pendingOf` keeps stash / cur / fin)
+* an acceptor uses the interval of the peer's Logon unless configured to override            : C20_interval, C20_interval_configured, C20_logon_arms
+* every receive re-arms the peer timer with 1.2 × the interval in force                      : C20_arming
+* quantifier: every logged-on state (normal, recovering, pending, both), both roles, every cfg : ∀ s with `C20Active` / `C20Pending` / `curResend`; ∀ cfg in `s.cfg`
+* timers: the model observes `armPeer d`; the heartbeat timer is re-armed by every wire write in the implementation
+  (tied by the correspondence check, not an observation of the model); real run loop / real timers: the wall-clock layer of ./check
+* `C20_timed` (DESIGN §5: timed semantics, gaps between outbound messages ≤ hb) is not stated: the model has no clock
+-/
